@@ -251,7 +251,13 @@ def run(check, tier):
                         symbolic="all array elements (real or complex) in [-1,1], origin in [-5,5], sampling in [0.1,4]")
     check.assumptions += ["floating point is modelled as exact real arithmetic", "NumPy functions behave as the symbolic library "
                           "model says (validated on every run against real NumPy at random inputs)"]
-    check.outside += ["4-D arrays (same code path)", "integer dtypes"]
+    check.outside += ["4-D arrays (same code path)", "integer dtypes in fourier_resample / pad / crop; int64 / uint64 block sums (engine X covers bin for the six narrower dtypes)"]
     check.engines.add("symnum + z3 " + __import__("z3").get_version_string())
     decide_many(check, [(n, c, dict(o, key=n.split("[")[0])) for n, c, o in cases(tier)],
                 timeout_s=60 if tier == "quick" else 300, validate=1 if tier == "quick" else 3)
+    # integer / boolean dtypes through the real bin (engine X: symbolic selectors over concrete values at the extremes of each dtype)
+    from ..xh import run_jobs
+    check.bounds.update(integer_dtypes="uint8, int8, uint16, int16, int32, bool; values at the extremes and interior of the dtype; factors 2, 3; "
+                                       "sum and mean; 1-D and 2-D")
+    run_jobs(check, "harness/c06_dtypes.py", [dict(fn="bin_ints__reach", timeout=60)]
+             + [dict(fn="bin_ints", fixed=dict(dt=dt), timeout=300, key="bin_integer_dtypes") for dt in range(6)])
